@@ -1,5 +1,6 @@
 # Per-property configuration of the correspondence streams: (name, generator, cases in quick tier, cases in thorough tier)
 import gens as G
+import corpus as K
 
 # constant tables re-proved (closed forms, coq/tables) by the checks of the properties whose routines index them
 T_COMMON = ['BID_NR_DIGITS', 'BID_TEN2K64', 'BID_TEN2K128', 'BID_TEN2K256', 'BID_MIDPOINT64', 'BID_MIDPOINT128', 'BID_MIDPOINT192', 'BID_MIDPOINT256',
@@ -22,7 +23,7 @@ PROPS = {
     'C02': dict(streams=[('fma', G.gen_fma, 120000, 2500000)]),
     'C03': dict(streams=[('cmp', G.gen_cmp, 400000, 6000000), ('ops', G.gen_ops, 40000, 600000)]),
     'C04': dict(streams=[('parse', G.gen_parse, 160000, 2500000)]),
-    'C05': dict(streams=[('fmt', G.gen_fmt, 40000, 400000), ('roundtrip', G.gen_roundtrip, 40000, 600000)]),
+    'C05': dict(streams=[('fmt', G.gen_fmt, 40000, 400000), ('roundtrip', G.gen_roundtrip, 40000, 600000), ('serde', G.gen_serde, 30000, 300000)]),
     'C06': dict(streams=[('toint', G.gen_toint, 120000, 2500000), ('fromint', G.gen_fromint, 30000, 1000000),
                          ('roundtrip', G.gen_int_roundtrip, 30000, 500000)]),
     'C07': dict(streams=[('frombin', G.gen_frombin, 60000, 1500000)]),
@@ -32,8 +33,8 @@ PROPS = {
     'C10': dict(streams=[('rem', G.gen_rem, 80000, 1500000)]),
     'C11': dict(streams=[('scaleb', G.gen_scaleb, 100000, 2000000), ('logb', G.gen_logb, 40000, 400000)]),
     'C12': dict(streams=[('nan', G.gen_nan, 120000, 1500000), ('invalid', G.gen_invalid_sources, 20000, 200000)]),
-    'C13': dict(streams=[('class', G.gen_class, 60000, 600000), ('noncanon', G.gen_noncanon_ops, 80000, 1000000)]),
-    'C14': dict(streams=[('status', G.gen_all_ops_status, 150000, 3000000)]),
+    'C13': dict(streams=[('class', G.gen_class, 60000, 600000), ('noncanon', G.gen_noncanon_ops, 80000, 1000000), ('consts', G.gen_consts, 5000, 50000)]),
+    'C14': dict(streams=[('status', G.gen_all_ops_status, 150000, 3000000)], cross_entry=True),
     'C15': dict(streams=[('sweep', G.gen_c15, 400000, 6000000), ('strings', G.gen_parse, 100000, 1500000)], panic_only=True, api_registry=True, level='other',
                 explanation='partial: exploration of every public entry point under catch_unwind (debug-assertion and release builds) plus an API registry check; absence of panics in the Rust code is not proved (the model does not transcribe it)'),
     'C16': dict(streams=[('minmax', G.gen_minmax, 120000, 2000000)]),
@@ -44,3 +45,20 @@ PROPS = {
 }
 
 for _k, _v in TABLES.items(): PROPS[_k]['tables'] = _v
+
+# Intel's vectors (inputs only) as the first stream of every property whose operations they exercise
+VECTORS = {'C01': ['add', 'sub', 'mul', 'div', 'sqrt'], 'C02': ['fma'], 'C03': ['cmp'], 'C04': ['parse'], 'C05': ['fmt'],
+           'C06': ['to_*', 'from_i64', 'from_u64', 'lrint', 'llrint', 'lround', 'llround'], 'C07': ['from_f32', 'from_f64'],
+           'C08': ['rint', 'rint_*', 'nearbyint', 'modf'], 'C09': ['quantize', 'quantexp', 'llquantexp', 'quantum', 'samequantum'], 'C10': ['rem', 'fmod'],
+           'C11': ['scaleb', 'scalebln', 'ldexp', 'logb', 'ilogb', 'frexp'], 'C12': ['abs', 'neg', 'copy', 'copysign', 'nan'], 'C13': ['class', 'isx', 'fdim'],
+           'C16': ['minnum', 'maxnum', 'minmag', 'maxmag'], 'C17': ['nextup', 'nextdown', 'nextafter', 'nexttoward'], 'C18': ['totalorder', 'totalordermag'],
+           'C19': ['encode', 'decode']}
+for _k, _v in VECTORS.items(): PROPS[_k]['streams'].insert(0, ('vectors', K.gen_vectors(_v), 60000, 400000))
+
+# layer I (translated routines): (groups of layerI/rs2v.py to translate, routines whose theorems are obligations of the property)
+LAYER_I = {'C13': ('A,C', ['bid128_is_signed', 'bid128_is_nan', 'bid128_is_inf', 'bid128_is_signaling', 'bid128_is_finite', 'bid128_is_zero', 'bid128_is_canonical',
+                           'bid128_is_normal', 'bid128_is_subnormal', 'bid128_class']),
+           'C12': ('A', ['bid128_copy', 'bid128_negate', 'bid128_abs', 'bid128_copy_sign']),
+           'C09': ('A,B', ['bid128_same_quantum', 'bid128_quantexp', 'bid128_llquantexp', 'bid128_quantum']),
+           'C06': ('B', ['bid128_from_int32', 'bid128_from_uint32', 'bid128_from_int64', 'bid128_from_uint64'])}
+for _k, _v in LAYER_I.items(): PROPS[_k]['layerI'] = _v
